@@ -27,7 +27,8 @@ class Prop:
             "interface bounce (Down/Up) within 1.2 s of a handshake message with/without persistent keepalive, answered or not, "
             "give-up with something queued on a first handshake and on a re-handshake after an earlier session (key aged 181 s and attempt counter preset by hooks in quick, full 20 transmissions in thorough) followed by new traffic, "
             "receive-only (keepalive at 10 s, second data while pending), unanswered send (new handshake at 15 s + jitter; answered => none; answered exchange first, then an unanswered send; the cancelling arrival being in turn data, keepalive, peer initiation with confirmation withheld, response), "
-            "peer created with its persistent keepalive by one UAPI set on a device that is up (vs. configured before Up), "
+            "peer created with its persistent keepalive by one UAPI set on a device that is up (vs. configured before Up), also as a non-last section of a multi-peer set, "
+            "persistent keepalive with a completely failed handshake cycle and no local traffic (new cycle one interval after the last transmission), "
             "second episodes on the same peer (second attempt after a give-up must be retransmitted again, second give-up, second handshake answered and used, interval switched off and on again over UAPI), "
             "fresh non-retry initiation while the retransmit timer is pending (lastSentHandshake aged by hook), 2..6 separately staged batches at give-up and at peer stop, "
             "persistent keepalive (1/2/3/.. s, interval restarted by a receive), 1/127/128/129/300/random TUN batches of 1..4 packets staged "
@@ -87,8 +88,15 @@ class Prop:
         res = [r for r in res if r["kind"] in (1, 2)]
         bad = sorted({r["case"] for r in res})
         self._deviations(cases)
+        # a scenario whose only failures are listed known findings is not re-run (it reproduces every time)
+        known = vlib.known_findings(self.pid)
+        known_only = [i for i in bad
+                      if all(r["kind"] == 2 and self.signature(cases[i], r) in known for r in res if r["case"] == i)]
+        keep = [r for r in res if r["case"] in known_only]
+        bad = [i for i in bad if i not in known_only]
+        res = [r for r in res if r["case"] not in known_only]
         if not bad:
-            return []
+            return keep
         # ONE re-run of each missed scenario before the miss counts (timing on a shared machine)
         self.first_run_misses = [{"spec": cases[i]["spec"], "failures": [r for r in res if r["case"] == i][:4]} for i in bad]
         self.reruns += len(bad)
@@ -117,7 +125,7 @@ class Prop:
                     confirmed.append(dict(r, case=i))
         self.extra_coverage["first_run_misses_not_confirmed"] = [m for m, i in zip(self.first_run_misses, bad)
                                                                  if not any(r["case"] == i for r in confirmed)]
-        return confirmed
+        return keep + confirmed
 
     def _deviations(self, cases):
         agg = {}
